@@ -524,6 +524,9 @@ class DataFrameSchemaBackend(PandasSchemaBackend):
         # each one. Coerce dtypes afterwards instead.
         for c in missing_obj.columns:
             col_schema = missing_cols_schema[c]
+            if col_schema.dtype is None:
+                # no dtype declared, keep the fill value as is
+                continue
             try:
                 missing_obj[c] = col_schema.dtype.try_coerce(missing_obj[c])
             except ParserError as exc:
